@@ -46,9 +46,9 @@
 // Oracles after every transition: contents == model through operator[] (values, and for Tracked the serial of the
 // object: an element stays the same object while it is stored), Tracked live-set == exactly the stored elements,
 // allocator ledger (every block deallocated exactly once with its size, number of outstanding blocks == number of
-// buffers owning storage), ASan.  Two structural invariants taken from the member documentation ("cursor positions
-// modulo the power-of-two capacity") are checked where the next in-contract push would otherwise crash:
-// a buffer with max_size > 0 has storage ("no-storage") and begin_/end_ <= mask_ ("cursor-out-of-range").
+// buffers owning storage), ASan.  Two invariants of the current representation ("cursor positions modulo the
+// power-of-two capacity": a buffer with max_size > 0 has storage, begin_/end_ <= mask_) are ADVISORY only (NOTE, no
+// verdict): the next in-contract push/front/back of such a state is explored anyway and fails observably (ASan, assert).
 #include <tlx/container/ring_buffer.hpp>
 
 #include <sys/resource.h>
@@ -411,15 +411,13 @@ struct RBSystem {
             if (X.kind == UNKNOWN) max_blocks++;
             if (X.kind == ALLOC && X.max > 0) {
                 if (rb.data_ == nullptr) {
-                    vh::fail_here("no-storage", vh::fmt("%s should hold up to %zu elements but data_ == nullptr (capacity_=%zu): the next push writes through a null pointer",
+                    vh::advisory("no-storage", vh::fmt("%s should hold up to %zu elements but data_ == nullptr (capacity_=%zu): the next push writes through a null pointer",
                                                         xs, X.max, rb.capacity_));
-                    return;
                 }
                 if (rb.begin_ > rb.mask_ || rb.end_ > rb.mask_) {
-                    vh::fail_here("cursor-out-of-range",
+                    vh::advisory("cursor-out-of-range",
                                   vh::fmt("%s: begin_=%zu end_=%zu but mask_=%zu (capacity_=%zu, max_size_=%zu): the next push/front/back touches data_[] outside the array",
                                           xs, (size_t)rb.begin_, (size_t)rb.end_, rb.mask_, rb.capacity_, rb.max_size_));
-                    return;
                 }
             }
             if (rb.size() != X.m.size()) {
